@@ -4,6 +4,7 @@ package jobs
 
 import (
 	"context"
+	egdm "github.com/mimiro-io/entity-graph-data-model"
 
 	"github.com/mimiro-io/datahub/internal/server"
 	"github.com/mimiro-io/datahub/internal/verifh"
@@ -172,4 +173,35 @@ func VerifC10Pages(h *verifh.H) {
 	}
 	h.Assert(vSameSeq(sink.delivered, want), "the sink receives exactly what the transform returned, in order")
 	h.Observe("delivered", len(sink.delivered))
+}
+
+// VerifC10Egdm: the conversion every entity returned by an HTTP transform with
+// SupportContext goes through (convertEgdmEntityToServerEntity): id,
+// properties, references and the deleted flag of what the transform returned
+// are what reaches the sink — for symbolic ids and values and either deleted
+// flag, so an identity transform stays a plain copy also for tombstones.
+func VerifC10Egdm(h *verifh.H) {
+	src := &egdm.Entity{Properties: map[string]interface{}{}, References: map[string]interface{}{}}
+	src.ID = "ns0:" + h.StrOver("id", 1+h.Choice("idLen", 2), "ab")
+	src.IsDeleted = h.Bool("deleted")
+	if h.Choice("hasProp", 2) == 1 {
+		src.Properties["ns0:v"] = h.StrOver("v", 1, "xy")
+	}
+	if h.Choice("hasRef", 2) == 1 {
+		src.References["ns0:r"] = "ns0:" + h.StrOver("t", 1, "ab")
+	}
+	got := convertEgdmEntityToServerEntity(src)
+	h.Assert(got != nil, "converted")
+	h.Assert(h.StrEq(got.ID, src.ID), "the id is the one the transform returned")
+	h.Assert(got.IsDeleted == src.IsDeleted, "the deleted flag is the one the transform returned")
+	h.Assert(len(got.Properties) == len(src.Properties) && len(got.References) == len(src.References), "no property or reference is lost or invented")
+	if v, ok := src.Properties["ns0:v"]; ok {
+		gv, _ := got.Properties["ns0:v"].(string)
+		h.Assert(h.StrEq(gv, v.(string)), "property values are the ones the transform returned")
+	}
+	if r, ok := src.References["ns0:r"]; ok {
+		gr, _ := got.References["ns0:r"].(string)
+		h.Assert(h.StrEq(gr, r.(string)), "reference values are the ones the transform returned")
+	}
+	h.Observe("deleted", got.IsDeleted)
 }
